@@ -10,6 +10,7 @@ import (
 	"net/url"
 	"reflect"
 	"strings"
+	"sync"
 
 	"github.com/flamego/flamego"
 )
@@ -76,6 +77,8 @@ func panicValue(v int) interface{} {
 		return panicStruct{N: 4}
 	case 5:
 		return http.ErrAbortHandler
+	case 7: // an error value whose Error method itself panics (nil receiver)
+		return (*customErr)(nil)
 	}
 	return fmt.Sprintf("boom%d", v)
 }
@@ -87,7 +90,34 @@ func panicText(v int) string {
 	if v == 3 {
 		return "assignment to entry in nil map"
 	}
+	if v == 7 {
+		return "<nil>" // what fmt prints for a nil receiver whose method panics
+	}
 	return fmt.Sprintf("%s", panicValue(v))
+}
+
+// scriptCtx is a request context that a scripted handler ends, either as cancelled or as past its deadline.
+type scriptCtx struct {
+	gocontext.Context
+	done chan struct{}
+	kind error
+	mu   sync.Mutex
+	err  error
+}
+
+func (c *scriptCtx) Done() <-chan struct{} { return c.done }
+func (c *scriptCtx) Err() error {
+	c.mu.Lock()
+	defer c.mu.Unlock()
+	return c.err
+}
+func (c *scriptCtx) finish() {
+	c.mu.Lock()
+	defer c.mu.Unlock()
+	if c.err == nil {
+		c.err = c.kind
+		close(c.done)
+	}
 }
 
 type chainRun struct {
@@ -210,15 +240,27 @@ func scriptedHandler(cr **chainRun, i int, h *Sx) flamego.Handler {
 			// the built-in fast path for func() (int, string); it cannot log, which the model accounts for
 			return func() (int, string) { return ret[0].Args()[0].Int(), ret[1].Args()[0].Bytes() }
 		}
-		return func(c flamego.Context) (int, string) { body(c); return ret[0].Args()[0].Int(), ret[1].Args()[0].Bytes() }
+		return func(c flamego.Context) (int, string) {
+			body(c)
+			return ret[0].Args()[0].Int(), ret[1].Args()[0].Bytes()
+		}
 	case "int,bytes,":
-		return func(c flamego.Context) (int, []byte) { body(c); return ret[0].Args()[0].Int(), mkBytes(ret[1].Args()[0]) }
+		return func(c flamego.Context) (int, []byte) {
+			body(c)
+			return ret[0].Args()[0].Int(), mkBytes(ret[1].Args()[0])
+		}
 	case "int,err,":
 		return func(c flamego.Context) (int, error) { body(c); return ret[0].Args()[0].Int(), mkErr(ret[1].Args()[0]) }
 	case "str,err,":
-		return func(c flamego.Context) (string, error) { body(c); return ret[0].Args()[0].Bytes(), mkErr(ret[1].Args()[0]) }
+		return func(c flamego.Context) (string, error) {
+			body(c)
+			return ret[0].Args()[0].Bytes(), mkErr(ret[1].Args()[0])
+		}
 	case "bytes,err,":
-		return func(c flamego.Context) ([]byte, error) { body(c); return mkBytes(ret[0].Args()[0]), mkErr(ret[1].Args()[0]) }
+		return func(c flamego.Context) ([]byte, error) {
+			body(c)
+			return mkBytes(ret[0].Args()[0]), mkErr(ret[1].Args()[0])
+		}
 	}
 	panic(badInput("return shape " + shape))
 }
@@ -276,8 +318,14 @@ func runChain(in *Sx) *Sx {
 	}
 	if dev {
 		flamego.SetEnv(flamego.EnvTypeDev)
+	} else if e := in.Field("env"); e != nil && e.Args()[0].Atom == "test" {
+		flamego.SetEnv(flamego.EnvTypeTest) // neither development nor production: no panic detail
 	} else {
 		flamego.SetEnv(flamego.EnvTypeProd)
+	}
+	deadline := false
+	if c := in.Field("ckind"); c != nil && c.Args()[0].Atom == "deadline" {
+		deadline = true
 	}
 	reps := 1
 	if r := in.Field("reps"); r != nil {
@@ -286,7 +334,12 @@ func runChain(in *Sx) *Sx {
 	var results []*Sx
 	for k := 0; k < reps; k++ {
 		cur = &chainRun{}
-		ctx, cancel := gocontext.WithCancel(gocontext.Background())
+		sc := &scriptCtx{Context: gocontext.Background(), done: make(chan struct{}), kind: gocontext.Canceled}
+		if deadline {
+			sc.kind = gocontext.DeadlineExceeded // the request context ends by its deadline, not by cancel()
+		}
+		var ctx gocontext.Context = sc
+		cancel := sc.finish
 		cur.cancel = cancel
 		method := "GET"
 		if head {
@@ -440,8 +493,17 @@ func chainInput(rng *rand.Rand, mw, route []*Sx, groups [][]*Sx, action *Sx, rep
 	if genExtras && rng.Intn(8) == 0 {
 		apprh = I(3 + rng.Intn(2))
 	}
-	return T("in", T("head", B(rng.Intn(5) == 0)), T("dev", B(rng.Intn(2) == 0)), T("mw", mw...), T("groups", gs...),
-		T("route", route...), T("action", action), T("reps", I(reps)), T("apprh", apprh))
+	dev := rng.Intn(2) == 0
+	env := A("prod")
+	if !dev && rng.Intn(3) == 0 {
+		env = A("test")
+	}
+	ckind := A("cancel")
+	if rng.Intn(3) == 0 {
+		ckind = A("deadline")
+	}
+	return T("in", T("head", B(rng.Intn(5) == 0)), T("dev", B(dev)), T("mw", mw...), T("groups", gs...),
+		T("route", route...), T("action", action), T("reps", I(reps)), T("apprh", apprh), T("env", env), T("ckind", ckind))
 }
 
 func genC03(rng *rand.Rand, n int, tier string, emit func(*Sx)) {
